@@ -1068,8 +1068,11 @@ def run(report, tier):
         report.part("FilePool/failed-enter (observed, not judged)", cases=n, judged=False, observations=obs)
     finally:
         shutil.rmtree(base, ignore_errors=True)
-    report.assume("TmpPool children run one create() to completion before the next operation starts (histories, "
-                  "not schedules, are enumerated); concurrent create during flush is outside this check")
+    # 5. a child creating concurrently with the parent's flush / create / exit: all schedules (engine A)
+    from checks import c20_conc
+    c20_conc.run_part(report, tier)
+    report.assume("in the history parts TmpPool children run one create() to completion before the next operation starts; "
+                  "create concurrent with flush()/exit is explored separately over the virtual manager list (engine A)")
     report.assume("remove() of a path that is not listed is not defined by the statement: any outcome accepted, "
                   "the listing/disk oracle is applied afterwards")
     report.assume("a failed FilePool.__enter__ (open() raising midway) is not 'leaving the context': observed, "
@@ -1080,6 +1083,20 @@ def replay(rec):
     """re-executes the recorded case against the current tree; exit 1 if it still fails"""
     print(rec["what"])
     rp = rec["replay"]
+    if rp.get("engine") == "vsched":
+        from checks import c20_conc
+        from mc import vsched
+        from mc.par import pin_self
+        c = rp["config"]
+        cfg = c20_conc.Cfg(c["name"], c["parent_ops"], c["child_ops"], c["children"])
+        pin_self()
+        r = vsched.Scheduler(rp["choices"], None, None, {(tuple(a), b) for a, b in rp["racy"]}, record_trace=True).run(
+            c20_conc.make_driver(cfg))
+        print("\n".join(r.trace))
+        bad = c20_conc.judge(cfg, r)
+        for v in bad:
+            print("VIOLATION", v[1], v[2])
+        return 1 if bad else 0
     print(rp.get("snippet"))
     case = rp.get("case")
     if not case:
